@@ -2,7 +2,10 @@
 
 package simhook
 
-import "io"
+import (
+	"io"
+	"sync"
+)
 
 // Enabled reports whether the simulation hooks are compiled in.
 const Enabled = true
@@ -18,6 +21,12 @@ type Handler interface {
 	Exit(key any)
 	// Join parks the running task until all the tasks it spawned have exited.
 	Join()
+	// WGAdd, WGDone and WGWait shadow the operations of a WaitGroup: Add and
+	// Done are not yield points, Wait parks the running task until the
+	// counter of w, as the simulator has seen it, is zero.
+	WGAdd(w any, n int)
+	WGDone(w any)
+	WGWait(w any)
 	// Point is a named yield point; arg is a site-specific value (block id,
 	// failure flag). It may panic with an injected error.
 	Point(name string, arg int)
@@ -99,4 +108,37 @@ func WrapReadCloser(r io.ReadCloser) io.ReadCloser {
 	}
 
 	return r
+}
+
+// WaitGroup is a sync.WaitGroup whose operations are visible to the simulator:
+// with no simulation active it behaves exactly like the embedded one. The
+// simulator decides when a waiter resumes from the Done calls it has seen, in
+// the order the code makes them, so that a Wait is released exactly when the
+// real one would be.
+type WaitGroup struct {
+	wg sync.WaitGroup
+}
+
+func (w *WaitGroup) Add(n int) {
+	w.wg.Add(n)
+
+	if h := H; h != nil {
+		h.WGAdd(w, n)
+	}
+}
+
+func (w *WaitGroup) Done() {
+	w.wg.Done()
+
+	if h := H; h != nil {
+		h.WGDone(w)
+	}
+}
+
+func (w *WaitGroup) Wait() {
+	if h := H; h != nil {
+		h.WGWait(w)
+	}
+
+	w.wg.Wait()
 }
